@@ -96,6 +96,10 @@ fn run_case(c: &Case, s: &Subject) -> Res {
         }
     };
     let cont = &p1.containers[0];
+    if kit::load(s.format, &a1, c.via_stream).map(|b| b != s1).unwrap_or(true) {
+        r.counters.push((format!("trivial:embedding-not-sound(C07):{fam}"), 1));
+        return r;
+    }
     let locs = match kit::locations(s.format, &a1) {
         Ok(l) => l,
         Err(e) if kit::is_panic(&e) => {
@@ -131,7 +135,9 @@ fn run_case(c: &Case, s: &Subject) -> Res {
         // (b) the Cai region contains the store as located by the independent parser
         for sr in &cont.store_ranges {
             if !cai.iter().any(|c| fmt::within(*sr, *c)) {
-                r.defect = Some(("cai-misses-store".into(), String::new(), format!("store bytes at {}+{} (independent parser) are not inside the Cai region(s) {:?}", sr.0, sr.1, cai)));
+                // the region holds a *copy* of the store bytes located somewhere else in the file?
+                let elsewhere = !cont.encoded && cai.len() == 1 && a1[cai[0].0..cai[0].0 + cai[0].1] == s1[..];
+                r.defect = Some(("cai-misses-store".into(), if elsewhere { "region-points-at-another-occurrence-of-the-store-bytes".into() } else { String::new() }, format!("store bytes at {}+{} (independent parser) are not inside the Cai region(s) {:?}", sr.0, sr.1, cai)));
                 return r;
             }
         }
@@ -205,6 +211,9 @@ fn judge(c: &Case, subjects: &[Subject]) -> (Res, Option<String>) {
     let r = run_case(c, s);
     let sig = r.defect.as_ref().map(|(d, detail, _)| {
         let fam = fmt::family(s.format).unwrap_or("?");
+        if detail.starts_with("region-points-at-another") {
+            return format!("{fam}|{d}:{detail}");
+        }
         // is the length part of the cause?  re-run at length 100
         let any_size = c.len != 100 && run_case(&Case { len: 100, ..c.clone() }, s).defect.map(|x| x.0 == *d).unwrap_or(false);
         let clean = subjects.iter().position(|x| x.name == s.name && x.state == "clean");
@@ -231,6 +240,23 @@ fn main() {
     for a in kit::hostile_bmff_assets() {
         subjects.push(Subject { name: a.name, format: a.format, state: "layout", origin: "tiny", bytes: a.bytes });
     }
+    // directed: an ID3 tag that already holds a copy of the store bytes in a PRIV frame in front of the GEOB
+    let directed_store = kit::make_store(100, 777, 0).0;
+    for (name, format, flac) in [("tiny_privcopy.mp3", "mp3", false), ("tiny_privcopy.flac", "flac", true)] {
+        let mut body = b"verif\0".to_vec();
+        body.extend_from_slice(&directed_store);
+        let mut frame = b"PRIV".to_vec();
+        let n = body.len() as u32;
+        frame.extend_from_slice(&[((n >> 21) & 0x7F) as u8, ((n >> 14) & 0x7F) as u8, ((n >> 7) & 0x7F) as u8, (n & 0x7F) as u8]);
+        frame.extend_from_slice(&[0, 0]);
+        frame.extend(body);
+        let mut v = b"ID3\x04\x00\x00".to_vec();
+        let n = frame.len() as u32;
+        v.extend_from_slice(&[((n >> 21) & 0x7F) as u8, ((n >> 14) & 0x7F) as u8, ((n >> 7) & 0x7F) as u8, (n & 0x7F) as u8]);
+        v.extend(frame);
+        v.extend(if flac { kit::tiny_flac(false) } else { assets::tiny_mp3(2, false) });
+        subjects.push(Subject { name: name.into(), format, state: "clean", origin: "tiny", bytes: v });
+    }
     let all_sizes = kit::boundary_sizes(quick);
     let mut rng = Rng::new(run.seed, "c08");
     let mut cases = Vec::new();
@@ -249,6 +275,11 @@ fn main() {
                 }
                 cases.push(Case { subj: si, len: *n, seed: rng.next_u64() % 1_000_000, pair, via_stream: (j + pair as usize) % 2 == 0 });
             }
+        }
+    }
+    for (si, s) in subjects.iter().enumerate() {
+        if s.name.starts_with("tiny_privcopy") {
+            cases.push(Case { subj: si, len: 100, seed: 777, pair: 0, via_stream: false });
         }
     }
     if let Some(p) = run.replay.clone() {
